@@ -29,6 +29,9 @@ Definition bind {A B} (r : res A) (k : A -> res B) : res B :=
   | OutOfFuel => OutOfFuel
   end.
 
+(* list reversal in linear time (List.rev is quadratic); JsonProofsBase.frev_eq : frev l = rev l *)
+Definition frev (l : list Z) : list Z := rev_append l [].
+
 Definition peek (r : list Z) : Z := match r with [] => 0 | b :: _ => b end.
 Definition adv {A} (r : list Z) (k : list Z -> res A) : res A :=
   match r with [] => OutOfBounds | _ :: t => k t end.
@@ -124,7 +127,7 @@ Fixpoint str_loop (fuel : nat) (line : Z) (r : list Z) (acc : list Z) : res (Z *
         else if e =? 0 then SyntaxErr line r1 E_eof        (* repair 01: backslash before the terminator *)
         else str_loop f line r1 (92 :: acc))    (* repair 05: unknown escape: the backslash is kept, the next byte is
                                                    read by the loop like any other (a line break is counted) *)
-    else if c =? 34 then adv r (fun r1 => Ok (line, r1, rev acc))
+    else if c =? 34 then adv r (fun r1 => Ok (line, r1, frev acc))
     else adv r (fun r1 => str_loop f line r1 (c :: acc))
   end.
 
@@ -150,7 +153,7 @@ Fixpoint num_loop (fuel : nat) (r : list Z) (acc : list Z) (isd : bool) : res (l
     if (c =? 69) || (c =? 101) || (c =? 45) || (c =? 43) then adv r (fun r1 => num_loop f r1 (c :: acc) isd)
     else if c =? 46 then adv r (fun r1 => num_loop f r1 (c :: acc) true)
     else if is_digit c then adv r (fun r1 => num_loop f r1 (c :: acc) isd)
-    else Ok (r, rev acc, isd)
+    else Ok (r, frev acc, isd)
   end.
 
 (* libc atoll on the scanned text: reference decimal reading (optional sign, leading digit run),
@@ -260,7 +263,7 @@ Fixpoint back_run (revpre : list Z) : nat :=
   | c :: t => if is_break c then O else S (back_run t)
   end.
 Definition column (s at_ : list Z) : Z :=
-  1 + Z.of_nat (back_run (rev (firstn (length s - length at_) s))).
+  1 + Z.of_nat (back_run (frev (firstn (length s - length at_) s))).
 
 Inductive parse_result :=
 | POk (v : value)
@@ -277,6 +280,47 @@ Definition parse (s : list Z) : parse_result :=
   | OutOfBounds => POutOfBounds
   | OutOfFuel => POutOfFuel
   end.
+
+(* ---------- the Parser object and the target Variant across calls ----------
+   Json::Parser keeps a Private object alive between calls: pos.line and the three error fields survive
+   a call, `start`, `pos.pos` and `token` are assigned before they are read.  The target of parse is
+   a Variant the caller owns: parseArray / parseObject obtain their container by result.toList() /
+   result.toMap(), which *keep* what a list / map target already holds; parseValue assigns scalars. *)
+Record parser := mkParser { o_line : Z; o_err : option (Z * Z * nat) }.   (* pos.line; errorLine, errorColumn, errorString *)
+
+Definition list_of (v : value) : list value := match v with JList l => l | _ => [] end.            (* Variant::toList() *)
+Definition map_of (v : value) : list (list Z * value) := match v with JMap m => m | _ => [] end.   (* Variant::toMap() *)
+
+(* parseValue(result) on a target that may hold something (nested targets are always fresh Variants) *)
+Definition parse_value_into (tgt : value) (fuel : nat) (p : pos) (t : tok) : res (value * pos * tok) :=
+  match fuel with
+  | O => OutOfFuel
+  | S f =>
+    let k := fst t in
+    if is_scalar_tok k then bind (read_token p) (fun '(p', t') => Ok (snd t, p', t'))
+    else if k =? 91 then bind (read_token p) (fun '(p1, t1) => arr_loop f p1 t1 (rev (list_of tgt)))
+    else if k =? 123 then bind (read_token p) (fun '(p1, t1) => obj_loop f p1 t1 (map_of tgt))
+    else SyntaxErr (p_line p) (p_rest p) E_unexpected
+  end.
+
+(* Json::Private::parse(data, result) on an object with history [o] and a target holding [tgt];
+   [clear] = the statement `result.clear();` of repair 06 is present *)
+Definition parse_obj (clear : bool) (o : parser) (tgt : value) (s : list Z) : parser * parse_result :=
+  let o1 := mkParser 1 (o_err o) in                         (* start = data; pos.line = 1; pos.pos = start; *)
+  let tgt1 := if clear then JNull else tgt in               (* result.clear();   (repair 06) *)
+  match bind (read_token (mkPos (o_line o1) s)) (fun '(p, t) => parse_value_into tgt1 (parse_fuel s) p t) with
+  | Ok (v, p, _) => (mkParser (p_line p) (o_err o1), POk v)          (* the error fields keep their old content *)
+  | SyntaxErr l at_ m => (mkParser l (Some (l, column s at_, m)), PErr l (column s at_) m)
+  | OutOfBounds => (o1, POutOfBounds)
+  | OutOfFuel => (o1, POutOfFuel)
+  end.
+
+Definition parse_with (o : parser) (tgt : value) (s : list Z) : parser * parse_result := parse_obj true o tgt s.
+
+(* the static wrappers Json::parse(data, result): a fresh Private per call (its pos.line is indeterminate
+   before the assignment: any number) *)
+Definition static_parse (garbage : Z) (tgt : value) (s : list Z) : parse_result :=
+  snd (parse_with (mkParser garbage None) tgt s).
 
 (* ---------- serialiser ---------- *)
 (* printf("%d"/"%lld"): reference decimal printing *)
@@ -342,6 +386,13 @@ Fixpoint emit (v : value) (ind : list Z) : list Z :=
 
 Definition to_string (v : value) : list Z := emit v [] ++ [10].
 
+(* ---------- the text of a C string inside a buffer: bytes before the first NUL ---------- *)
+Fixpoint cstr (s : list Z) : list Z :=
+  match s with
+  | [] => []
+  | c :: t => if c =? 0 then [] else c :: cstr t
+  end.
+
 (* ---------- stripComments (the state machine as written, after repairs 03 and 04) ---------- *)
 (* String::findOneOf(src, set) = strpbrk: the remainder from the first byte in the set, or None *)
 Fixpoint find_one_of (set : list Z) (r : list Z) : option (list Z) :=
@@ -402,11 +453,91 @@ Fixpoint strip_main (fuel : nat) (r : list Z) (out : list Z) : list Z :=
     end
   end.
 
-Definition strip_comments (s : list Z) : list Z := rev (strip_main (S (length s)) s []).
+(* `const char* src = data` is read as a C string: the machine stops at the first 0 byte of the String
+   (Json.cpp:524 `if (!*src) break;`, strpbrk), whatever data.length() says *)
+Definition strip_comments (s : list Z) : list Z := frev (strip_main (S (length s)) (cstr s) []).
 
-(* ---------- the text of a C string inside a buffer: bytes before the first NUL ---------- *)
-Fixpoint cstr (s : list Z) : list Z :=
-  match s with
-  | [] => []
-  | c :: t => if c =? 0 then [] else c :: cstr t
+(* ---------- stripComments once more, with every memory access checked ----------
+   src: r = the bytes before the terminator that are still ahead; src[k] is inside the buffer iff
+   k <= length r (index length r is the terminator).  dest: `String result(data.length())` owns
+   cap + 1 bytes (cap = data.length()); [out] = the bytes written so far (reversed) and w their number, so
+   `*(dest++) = b` writes index w.  Anything else is OutOfBounds. *)
+(* *src: the byte at the cursor (the terminator when nothing is left) is always inside the buffer *)
+Definition rd0 {A} (r : list Z) (f : Z -> res A) : res A := f (peek r).
+(* src[1]: inside the buffer iff the byte at the cursor is not the terminator *)
+Definition rd1 {A} (r : list Z) (f : Z -> res A) : res A :=
+  match r with [] => OutOfBounds | _ :: t => f (peek t) end.
+(* `*(dest++) = b` with w bytes written so far: index w must be one of the cap + 1 bytes *)
+Definition wr {A} (cap w : Z) (out : list Z) (b : Z) (f : Z -> list Z -> res A) : res A :=
+  if w <=? cap then f (w + 1) (b :: out) else OutOfBounds.
+
+(* the copy loop of a string literal (entered after the opening quote has been copied) *)
+Fixpoint strip_string_chk (cap w : Z) (r : list Z) (out : list Z) : res (list Z * Z * list Z) :=
+  match r with
+  | [] => rd0 r (fun _ => Ok ([], w, out))                 (* *src == 0: break *)
+  | c :: t =>
+    rd0 r (fun c0 =>
+      if c0 =? 92 then
+        rd1 r (fun e =>                                    (* src[1] *)
+          match t with
+          | [] => wr cap w out c (fun w1 out1 => strip_string_chk cap w1 t out1)
+          | e' :: t' => wr cap w out c (fun w1 out1 => wr cap w1 out1 e' (fun w2 out2 => strip_string_chk cap w2 t' out2))
+          end)
+      else if c0 =? 34 then wr cap w out c (fun w1 out1 => Ok (t, w1, out1))
+      else wr cap w out c (fun w1 out1 => strip_string_chk cap w1 t out1))
   end.
+
+Fixpoint strip_block_chk (cap : Z) (fuel : nat) (w : Z) (r : list Z) (out : list Z) : res (option (list Z) * Z * list Z) :=
+  match fuel with
+  | O => OutOfFuel
+  | S f =>
+    match find_one_of [13; 10; 42] r with                  (* strpbrk stops at the terminator *)
+    | None => Ok (None, w, out)
+    | Some [] => Ok (None, w, out)
+    | Some (c :: t) =>
+      rd0 (c :: t) (fun _ =>
+        if c =? 42 then
+          rd1 (c :: t) (fun d =>                           (* end[1] *)
+            if d =? 47 then Ok (Some (tl t), w, out)
+            else strip_block_chk cap f w t out)
+        else wr cap w out c (fun w1 out1 => strip_block_chk cap f w1 t out1))
+    end
+  end.
+
+Fixpoint strip_main_chk (cap : Z) (fuel : nat) (w : Z) (r : list Z) (out : list Z) : res (Z * list Z) :=
+  match fuel with
+  | O => OutOfFuel
+  | S f =>
+    rd0 r (fun c =>
+      match r with
+      | [] => Ok (w, out)
+      | _ :: t =>
+        if c =? 47 then
+          rd1 r (fun d =>                                  (* src[1] *)
+            if d =? 47 then
+              match find_one_of [13; 10] r with
+              | Some e => strip_main_chk cap f w e out
+              | None => Ok (w, out)
+              end
+            else if d =? 42 then
+              match t with
+              | [] => OutOfBounds                          (* src += 2 would leave the buffer: d = '*' excludes it *)
+              | _ :: t2 =>
+                bind (strip_block_chk cap (S (length t)) w t2 out) (fun '(r', w', out') =>
+                  match r' with
+                  | Some r2 => strip_main_chk cap f w' r2 out'
+                  | None => Ok (w', out')
+                  end)
+              end
+            else wr cap w out c (fun w1 out1 => strip_main_chk cap f w1 t out1))
+        else if negb (c =? 34) then wr cap w out c (fun w1 out1 => strip_main_chk cap f w1 t out1)
+        else wr cap w out c (fun w1 out1 =>
+               bind (strip_string_chk cap w1 t out1) (fun '(r', w', out') => strip_main_chk cap f w' r' out'))
+      end)
+  end.
+
+(* `*dest = 0` is the last write; then resize(dest - destBuffer) *)
+Definition strip_comments_chk (s : list Z) : res (list Z) :=
+  let cap := Z.of_nat (length s) in
+  bind (strip_main_chk cap (S (length s)) 0 (cstr s) [])
+       (fun '(w, out) => wr cap w out 0 (fun _ _ => Ok (frev out))).
